@@ -172,6 +172,8 @@ class Res:
 
     def viol(self, sig, detail):
         fam, struct, opts = self.job
+        if struct == "ilv":
+            sig += "|interleaved-residues"
         self.records.append((sig, "%s %s %s: %s" % (fam, struct, opts, detail),
                              {"job": [fam, struct, opts], "seed": _G["seed"], "sig": sig}))
 
@@ -482,13 +484,21 @@ def _rg(job):
     tab = _G["tab"][name]
     X = _G["x64"][name]
     n = X.shape[1]
-    for mname, m in _mass_vectors(tab).items():
-        for sub in ("all", "subset"):
+    for mname, m_given in _mass_vectors(tab).items():
+        # the subset call receives a VIEW of the caller's float64 mass vector and comes first, the whole-system call then
+        # receives the parent vector itself: the oracle works from a private copy, so a callee that writes into its
+        # argument is seen both as a changed argument and as a wrong second result
+        m = None if m_given is None else m_given.copy()
+        for sub in ("subset", "all"):
             idx = list(range(n)) if sub == "all" else list(range(1, n, 2))
             t = traj if sub == "all" else traj.atom_slice(idx)
             mm = None if m is None else m[idx]
             R.calls += 1
-            got = md.compute_rg(t) if mm is None else md.compute_rg(t, masses=mm)
+            arg = None if m_given is None else (m_given if sub == "all" else m_given[1::2])
+            got = md.compute_rg(t) if arg is None else md.compute_rg(t, masses=arg)
+            if arg is not None and not np.array_equal(m_given, m):
+                R.viol("rg|masses|argument-modified", "compute_rg(masses=%s %s) wrote into the caller's mass vector" % (mname, sub))
+                m_given = m.copy()
             for f in range(len(X)):
                 x = X[f][idx]
                 want = do.rg_standard(x, mm)
@@ -619,9 +629,12 @@ def _thermo(job):
     m_el = np.array([a["mass"] for a in tab["atoms"]])
     if vec is not None:
         V = np.array([abs(np.linalg.det(v)) for v in vec])
-        for mname, m in _mass_vectors(tab).items():
+        for mname, m_given in _mass_vectors(tab).items():
             R.calls += 1
-            got = md.density(traj) if m is None else md.density(traj, masses=m)
+            m = None if m_given is None else m_given.copy()
+            got = md.density(traj) if m is None else md.density(traj, masses=m_given)
+            if m is not None and not np.array_equal(m_given, m):
+                R.viol("density|masses|argument-modified", "density(masses=%s) wrote into the caller's mass vector" % mname)
             want = (m_el if m is None else m).sum() / V * do.DA_PER_NM3_IN_KG_PER_M3
             tol = (8 * EPS32 + 2e-7) * want
             R.nontriv.add(("density", mname))
@@ -1086,6 +1099,8 @@ def _jobs(quick):
     for s in ("ions_tri", "ions_ortho"):      # residue origins reached through a periodic image (dipoles), whole-cell spread
         for fam in ("thermo", "centres", "rg"):
             jobs.append((fam, s, {}))
+    for fam in ("centres", "shape"):             # atoms of different residues alternating in index order
+        jobs.append((fam, "ilv", {}))
     for s in [x for x in simple if not x.startswith("wat")]:
         jobs.append(("jcoupling", s, {}))
     for s in (["wat", "frag_1vii"] if quick else ["wat", "watc", "frag_1vii", "pep"]):
